@@ -245,8 +245,8 @@ func Slice(v ssa.Value, throughCalls bool, visit func(ssa.Value) bool) bool {
 			}
 		case *ssa.Call:
 			if throughCalls {
-				if x.Call.IsInvoke() && walk(x.Call.Value) {
-					return true
+				if (x.Call.IsInvoke() || x.Call.StaticCallee() == nil) && walk(x.Call.Value) {
+					return true // receiver of an interface call, or the function value of a dynamic call
 				}
 				for _, a := range x.Call.Args {
 					if walk(a) {
